@@ -13,12 +13,13 @@ from harness.common import exc_name
 
 PID = "C16"
 TITLE = "FillRequest processes the flow in consecutive blocks, however it is driven"
-LEAN_MODULES = ["LenaModel.Props.C16", "LenaModel.Props.C16X", "LenaModel.Props.C16P", "LenaModel.Props.C16S"]
+LEAN_MODULES = ["LenaModel.Props.C16", "LenaModel.Props.C16X", "LenaModel.Props.C16P", "LenaModel.Props.C16S",
+                "LenaModel.Props.C16Q"]
 LEAN_SOURCES = ["LenaModel/Model/C16.lean", "LenaModel/Model/C16Spec.lean", "LenaModel/Model/C16X.lean",
                 "LenaModel/Model/C16P.lean", "LenaModel/Model/C16S.lean", "LenaModel/Lemmas/C16.lean", "LenaModel/Lemmas/C16Run.lean",
                 "LenaModel/Lemmas/C16Acc.lean", "LenaModel/Lemmas/C16Yor.lean", "LenaModel/Lemmas/C16X.lean",
                 "LenaModel/Props/C16.lean", "LenaModel/Props/C16X.lean", "LenaModel/Props/C16P.lean",
-                "LenaModel/Props/C16S.lean"]
+                "LenaModel/Props/C16S.lean", "LenaModel/Model/C16Q.lean", "LenaModel/Props/C16Q.lean"]
 DRIVER = "drivers/C16.lean"
 # the theorems that carry the property (clauses of the statement, the proved parts `_partial` of clauses that are false
 # at full strength together with the proved negations of the full clauses, and the statements about the dimensions the
@@ -46,6 +47,13 @@ THEOREMS = [
     "Lena.C16.accounted_once",
     "Lena.C16.accounted_once_recorded",
     "Lena.C16.schedule_yor",
+    # ... on a FillRequestSeq object driven through its own fill()/request(), whatever its own bufsize/reset/flags
+    # (Model/C16Q.lean; seeded change C16-G)
+    "Lena.C16.seq_ops_eq_inner",
+    "Lena.C16.seq_ops_outer_irrelevant",
+    "Lena.C16.seq_schedule_independent",
+    "Lena.C16.seq_accounted_once",
+    "Lena.C16.seq_buffers_bounded",
     # at most one block of buffered values or results
     "Lena.C16.buffers_bounded_partial",
     "Lena.C16.buffers_bounded_between_partial",
@@ -62,6 +70,10 @@ THEOREMS = [
 # transcriptions of one docstring), model-internal glue between definitions, closed witnesses, facts that are true by
 # construction of the model, statements about the adapter variant that keeps generator objects (not code of /repo)
 AUX_THEOREMS = [
+    # glue: the adapter's histories are the generic histories on the adapter seen as an element; closed witness: a
+    # FillRequestSeq.request() that resets (the "todo: add reset here" as seeded change C16-G implements it) loses values
+    "Lena.C16.runOps_eq_runOpsEl",
+    "Lena.C16.reset_after_request_loses",
     # reading the whole flow first yields the same results (so run_streams is not implied by run_blocks); instance of
     # run_streams in the form the negation is stated in
     "Lena.C16.allThenYield_same_results",
@@ -89,7 +101,8 @@ TRUSTED = [
     "Lean 4.33.0 kernel; axioms limited to propext, Classical.choice, Quot.sound (audited by #print axioms on every run)",
     "hand transcription of FillRequest.__init__/fill/request/reset/_run_fill_compute/_run_run (the three variants also for "
     "a Run element that reads only part of its block; the four loops also as event streams 'value read' / 'result yielded', "
-    "Model/C16S.lean), FillRequestSeq.__init__/request and the SCHEDULE of fill/request calls "
+    "Model/C16S.lean), FillRequestSeq.__init__/fill/request/reset/run around a raw element or an adapter (Model/C16Q.lean) "
+    "and the SCHEDULE of fill/request calls "
     "that Split.run makes on one fill/request branch (not a transcription of Split.run: that is C03's, linked on the model "
     "side by LenaModel/Bridge/Split) into LenaModel/Model/C16.lean, C16X.lean, C16P.lean, validated by this correspondence "
     "check on the generated cases only (quick: every request schedule of flows up to length 6, histories up to length 3, "
@@ -144,8 +157,21 @@ ASSUMPTIONS = [
     "(generated for run, fill/request, Split and histories); they work in buffer_output resp. buffer_input mode",
     "flows of 1050..2400 values (a thousand blocks and more, beyond Split's default block, the interpreter's recursion limit "
     "and plausible buffer limits) are generated in both tiers, a few of each call form; longer ones are not",
-    "judged outside the statement (adversary round): candidates 1 and 2 are invalid (test-suite fails / demo fails on the "
-    "unchanged tree: FillRequestSeq driven by fill/request ignores its own bufsize/reset by design, split.py:45); mutants "
+    "a FillRequestSeq driven through its own fill()/request() (op seqops; seeded change C16-G): the FillRequest that is "
+    "filled and requested is the adapter the sequence CONTAINS, so the fill/request sentence is evaluated with that adapter's "
+    "block size / reset / flags, on what the preceding elements make of the values and through the following elements — for "
+    "every value of the sequence's own bufsize / reset / buffer flags / yield_on_remainder (which configure only its run; "
+    "split.py:45: 'Split never calls run of this sequence, so its own block size is unimportant'); 'run on the whole flow' "
+    "is the Python block reference and the run of a fresh identical adapter, and also the run of a fresh identical sequence "
+    "when its own block size and reset agree with the adapter's (otherwise that run is another function: it requests only "
+    "after its own blocks and resets the element at its own block ends). A sequence around a RAW fill/request element has "
+    "no FillRequest on its fill/request path (no block size to speak of): compared with the model only. run() before the "
+    "history on the same object: compared with the model only. The sequence's reset=True is generated only around elements "
+    "that have a reset method (otherwise run() ends in TypeError: FillRequest.reset is None — a reset that was asked for "
+    "and cannot be done; observed, outside the statement)",
+    "judged outside the statement (adversary round): candidate 1 is invalid (test-suite fails); candidate 2 (the same change "
+    "as seed C16-G) was judged invalid because its demo drove a sequence around a raw element — it is now reported with a "
+    "failing input through sequences around an adapter; mutants "
     "that change the default Split bufsize, Cache detection, __repr__/__eq__/context handling or an unused attribute "
     "(FillRequestSeq._reset) do not touch the statement; Split going on filling a branch after LenaStopFill (mutant "
     "split.py:400 break->continue) concerns raising elements, about which the statement is silent — the correspondence "
@@ -183,6 +209,16 @@ RULE = ("thorough, exhaustive: FillRequest.__init__ for every subset of {run,fil
         "(not with buffer_output under fill/request), a second flow on the same adapter / Split object, run after a "
         "fill/request history, (f, adapter, g) branches, a Sequence sibling that changes its copy of the block and a "
         "FillCompute sibling with copy_buf on/off; Run elements that read 0..3 values of their block. "
+        "FillRequestSeq objects driven through their own fill()/request() (both tiers): around a FillRequest adapter of "
+        "kind fill-request / fill-compute / run+fill-request x adapter bufsize 1..3 (thorough 1..4) x buffer mode x reset x "
+        "yield_on_remainder x elements before/after (none, functions, Run elements yielding 0..2 values per value; quick: "
+        "only none with yield_on_remainder) x EVERY request schedule of flows 0..5 (thorough 0..7), the sequence's own "
+        "bufsize (equal to the adapter's or 1,2,3,5) / buffer mode / yield_on_remainder drawn per case and its reset drawn "
+        "(thorough: both values); plus 4000 (20000) random: flows 0..12, bufsize 1..5, 2 results, state-changing request, "
+        "state-dependent result count, method-name keywords, fill-request+compute elements, a raw element in place of the "
+        "adapter, no/both buffer flags on adapter and sequence (LenaValueError without yield_on_remainder), a second "
+        "history on the same object, run() on the same object before / after the history; run of a fresh identical "
+        "sequence and of a fresh identical adapter for every case. "
         "Every run case hands over a counting iterator: the number of values taken when each result is yielded is compared "
         "with the event model and bounded by the oracle. "
         "Non-trivial: at least one result yielded or an exception.")
@@ -434,6 +470,8 @@ def make_adapter(case):
     """The real adapter for a run/ops/split case."""
     import lena.core
     kind = case["kind"]
+    if case.get("op") == "seqops":
+        return make_seq(case)
     if kind == "frseq":
         el = make_el("fr", case["k"], case["mut"], True, kpar=bool(case.get("kpar")))   # no "vals" with frseq
         args = []
@@ -449,6 +487,99 @@ def make_adapter(case):
                  alias=bool(case.get("alias")), codef=_code_of if case.get("vals") is not None else None)
     cls = _lazy_adapter_class() if case.get("ev") == "request" else lena.core.FillRequest
     return cls(el, **_kw(case))
+
+
+def make_inner(case):
+    """the fill/request element of a `seqops` sequence: a FillRequest adapter around the test element (the adapter
+    arguments of the case are ITS arguments), or — "inner": "raw" — the raw fill/request test element"""
+    import lena.core
+    if case.get("inner") == "raw":
+        return make_el("fr", case["k"], case["mut"], True, kpar=bool(case.get("kpar")))
+    el = make_el(case["kind"], case["k"], case["mut"], case["hr"], kpar=bool(case.get("kpar")),
+                 names=bool(case.get("names")))
+    return lena.core.FillRequest(el, **_kw(case))
+
+
+def _okw(case):
+    """the keyword arguments of the FillRequestSeq itself"""
+    kw = {"bufsize": case["ob"], "reset": case["oreset"], "yield_on_remainder": case["oyor"]}
+    if case["obuf"] in ("bi", "both"):
+        kw["buffer_input"] = True
+    if case["obuf"] in ("bo", "both"):
+        kw["buffer_output"] = True
+    return kw
+
+
+def make_seq(case):
+    """FillRequestSeq(*before, inner, *after, bufsize=ob, reset=oreset, <obuf>, yield_on_remainder=oyor)"""
+    import lena.core
+    pre, post = _code(case.get("pre")), _code(case.get("post"))
+    args = []
+    if pre:
+        args.append((lambda x: x + 10) if pre == 1 else _PreMulti())
+    args.append(make_inner(case))
+    if post:
+        args.append((lambda r: r + [99]) if post == 1 else _PostMulti())
+    return lena.core.FillRequestSeq(*args, **_okw(case))
+
+
+def _seq_passes(case):
+    """(xs0 | None, ops, ops2 | None, xs2 | None, xs): the passes over one FillRequestSeq object — run on xs0, the
+    history ops, a second history, run on xs2 — and the flow of the first history (for a fresh object's run)"""
+    n = case["n"]
+    ops = _ops_of(case)
+    ops2 = None
+    if case.get("n2") is not None:
+        ops2 = _ops_of(dict(case, n=case["n2"], mask=case.get("mask2", 0), vals=None))
+        ops2 = [o if o is None else o + n for o in ops2]
+    xs0 = list(range(50, 50 + case["n0"])) if case.get("n0") is not None else None
+    xs2 = list(range(70, 70 + case["n3"])) if case.get("n3") is not None else None
+    return xs0, ops, ops2, xs2, list(range(n))
+
+
+def _run_seqops(case, seq):
+    def sizes():
+        fr = seq._fill_request
+        return _sizes(fr) if hasattr(fr, "_n_count") else [0, 0, 0]
+
+    def history(ops):
+        trace = []
+        for o in ops:
+            if o is None:
+                out = [r for r in seq.request()]
+                trace.append([out] + sizes())
+            else:
+                seq.fill(o)
+                trace.append([None] + sizes())
+        return trace
+
+    xs0, ops, ops2, xs2, xs = _seq_passes(case)
+    res, phase = {}, "run0"
+    try:
+        if xs0 is not None:
+            res["r0"] = list(seq.run(iter(xs0)))
+        phase = "ops"
+        res["t"] = history(ops)
+        if ops2 is not None:
+            phase = "ops2"
+            res["t2"] = history(ops2)
+        if xs2 is not None:
+            phase = "run2"
+            res["r2"] = list(seq.run(iter(xs2)))
+        # "those of run on the whole flow": fresh, identically built objects — the whole sequence, and the contained
+        # adapter alone on what the preceding elements make of the flow (its results through the following elements)
+        phase = "run of a fresh sequence"
+        res["runseq"] = list(make_seq(case).run(iter(xs)))
+        if case.get("inner") != "raw":
+            phase = "run of a fresh adapter"
+            pre, post = _code(case.get("pre")), _code(case.get("post"))
+            innerflow = [y for x in xs for y in pre_ref(pre, x)]
+            res["runinner"] = [q for r in make_inner(case).run(iter(innerflow)) for q in post_ref(post, r)]
+        else:
+            res["runinner"] = None
+    except Exception as e:
+        return dict(res, e=exc_name(e), phase=phase)
+    return res
 
 
 def _works_bi(case):
@@ -785,6 +916,8 @@ def _run_impl(case):
                 decoy.fill(x)
     except Exception as e:
         return {"e": exc_name(e), "phase": "second adapter"}
+    if op == "seqops":
+        return _run_seqops(case, fr)
     if op in ("run", "runp"):
         try:
             # "rt": for every result, how many values of the flow had been taken when it was yielded
@@ -962,6 +1095,14 @@ def model_requests(case):
             r["xs2"] = codes2
         if case.get("form") == "seq3":
             r["apre"], r["apost"] = case.get("apre", 0), case.get("apost", 0)
+    elif op == "seqops":
+        xs0, ops, ops2, xs2, xs = _seq_passes(case)
+        r.update(inner=case.get("inner", "fr"), ops=ops, xs=xs,
+                 outer={"bufsize": case["ob"], "reset": case["oreset"], "bi": case["obuf"] in ("bi", "both"),
+                        "bo": case["obuf"] in ("bo", "both"), "yor": case["oyor"]})
+        for key, v in (("xs0", xs0), ("ops2", ops2), ("xs2", xs2)):
+            if v is not None:
+                r[key] = v
     elif op == "opsx":
         r["ops"] = case["ops"]
         r["ev"] = case.get("ev", "call")
@@ -1009,6 +1150,21 @@ def compare(case, res, replies):
                 return f"specification side of the model fails on a history the real code agrees with: {name}"
         if "r2" in res and res["r2"] != m["r2"]:
             return f"run after the history on the same adapter: impl {res['r2']} vs model {m['r2']}"
+        return None
+    if op == "seqops":
+        for key, what in (("r0", "run on the object before the history"), ("t", "history on the FillRequestSeq"),
+                          ("t2", "second history on the same object"), ("r2", "run on the same object afterwards"),
+                          ("runseq", "run of a fresh identical FillRequestSeq"),
+                          ("runinner", "run of the contained adapter on the pre-processed flow")):
+            if (key in res) != (key in m):
+                raise KeyError(f"driver reply / impl result: field {key} on one side only")
+            if key in res and res[key] != m[key]:
+                return f"{what}: impl {_Short(res[key]) if isinstance(res[key], list) else res[key]} vs model {m[key]}"
+        if m["seqok"] is not True:
+            return "specification side of the model fails: seqOps does not give the outputs of the trace"
+        if m["innerok"] is not True:
+            return ("specification side of the model fails: rhs of seq_ops_eq_inner (the contained adapter driven with the "
+                    "pre-processed fills) differs from seqOps")
         return None
     if op == "opsx":
         if res["t"] != m["t"]:
@@ -1148,6 +1304,8 @@ def oracle(case, res):
         if errs:
             return f"FillRequest.__init__ accepted arguments for which the documentation demands {sorted(errs)}"
         return None
+    if op == "seqops":
+        return _oracle_seqops(case, res)
     if "e" in res:
         return f"unexpected exception {res}"
     n, L = case["bufsize"], case["n"]
@@ -1275,6 +1433,106 @@ def ref_history(case):
                 emit()
                 waiting = True
     return out
+
+
+def ref_seq_history(case, ops):
+    """Documented behaviour of fill/request on a sequence (before..., FillRequest(el, bufsize=n, reset, ...), after...)
+    — no lena, no Lean: what the preceding elements make of each value is counted in blocks of n; a complete block
+    is emitted (by the next request() at the latest): the element yields its results, which go through the following
+    elements, and is reset iff the ADAPTER's reset is set; request() with yield_on_remainder also emits an incomplete
+    block.  The sequence's own bufsize / reset / flags do not occur."""
+    n, k, mut, rst, yor = case["bufsize"], case["k"], case["mut"], bool(case["reset"]), case["yor"]
+    pre, post = _code(case.get("pre")), _code(case.get("post"))
+    out, st = [], {"v": [], "cnt": 0}
+
+    def emit():
+        v = st["v"]
+        kk = (k if sum(v) % 2 == 1 else 0) if case.get("kpar") else k
+        out.extend(q for j in range(kk) for q in post_ref(post, [j] + v))
+        if mut:
+            v = v + [-1]
+        st["v"], st["cnt"] = ([] if rst else v), 0
+
+    for o in ops:
+        if o is None:
+            if yor and st["cnt"]:
+                emit()
+            continue
+        for y in pre_ref(pre, o):
+            st["v"] = st["v"] + [y]
+            st["cnt"] += 1
+            if st["cnt"] == n:
+                emit()
+    return out
+
+
+def _oracle_seqops(case, res):
+    """The fill/request sentence of the property on a FillRequestSeq driven through its own fill()/request(): the
+    FillRequest that is filled and requested is the contained adapter, so its block size / reset / flags are the
+    property's n / reset / flags; the sentence is promised for every value of the sequence's own options."""
+    outer_invalid = case["obuf"] in ("none", "both") and not case["oyor"]
+    if "e" in res:
+        if res.get("phase") == "init" and outer_invalid and res["e"] == "LenaValueError":
+            return None
+        return f"unexpected exception {dict((k, v) for k, v in res.items() if k in ('e', 'phase'))}"
+    if outer_invalid:
+        return "FillRequestSeq accepted buffer flags for which FillRequest.__init__ documents LenaValueError"
+    if case.get("inner") == "raw":
+        # no FillRequest adapter on the fill/request path (fill and request are the raw element's own): the sentence has
+        # no block size to speak about; compared with the model only
+        return None
+    if case.get("n0") is not None:
+        return None     # run() first on the same object: compared with the model only (no reference for the mixture)
+    n, k, yor = case["bufsize"], case["k"], case["yor"]
+    pre, post = _code(case.get("pre")), _code(case.get("post"))
+    xs0, ops, ops2, xs2, xs = _seq_passes(case)
+    allops = ops + (ops2 or [])
+    trace = _Short(res["t"] + res.get("t2", []))
+    desc = (f"FillRequestSeq({'f, ' if pre else ''}FillRequest(bufsize={n}, reset={case['reset']}, {case['buf']}, "
+            f"yield_on_remainder={yor}){', g' if post else ''}, bufsize={case['ob']}, reset={case['oreset']}, "
+            f"{case['obuf']}, yield_on_remainder={case['oyor']})")
+    outs, pend, since = [], 0, 0
+    for o, (out, cnt, lin, lout) in zip(allops, trace):
+        if o is None:
+            outs.extend(out)
+            if lin or lout:
+                return f"{desc}: buffers not empty after request(): _buffer_in {lin}, _buffer_out {lout} (trace {trace})"
+            if (yor and cnt != 0) or (not yor and not cnt < n):
+                return f"{desc}: _n_count = {cnt} after request() (trace {trace})"
+            pend, since = cnt, 0
+        else:
+            since += len(pre_ref(pre, o))
+            if cnt > n:
+                return f"{desc}: _n_count = {cnt} exceeds bufsize {n} (trace {trace})"
+            if lin > since:
+                return f"{desc}: _buffer_in holds {lin} values after {since} fills since the last request (trace {trace})"
+            if lout > k * ((pend + since) // n):
+                return f"{desc}: _buffer_out holds {lout} results after {since} fills since the last request (trace {trace})"
+            if not case.get("kpar") and cnt + lin != pend + since - n * (lout // k if k else 0):
+                return (f"{desc}: values not accounted: _n_count {cnt} + buffered {lin} after {pend}+{since} values "
+                        f"(trace {trace})")
+    sched = [i for i, o in enumerate(allops) if o is None]
+    ref = ref_seq_history(case, allops)
+    if outs != ref:
+        return (f"{desc} driven by fill()/request(), calls {_Short(['request' if o is None else o for o in allops])}: "
+                f"concatenated request() results {_Short(outs)}, consecutive blocks of the filled values give {_Short(ref)}")
+    innerflow = [y for o in allops if o is not None for y in pre_ref(pre, o)]
+    if not yor:
+        whole = ref_run(dict(case, pre=0), innerflow)
+        if outs != whole:
+            return (f"{desc}: concatenated request() results {_Short(outs)} (requests at call positions {sched}), run on "
+                    f"the whole flow would yield {_Short(whole)}")
+        if ops2 is None:
+            if res["runinner"] != outs:
+                return (f"{desc}: concatenated request() results {_Short(outs)} differ from the adapter's run on the whole "
+                        f"flow {_Short(res['runinner'])}")
+            if (case["ob"] == n and pre != 2 and not case["oyor"] and (case["reset"] or not case["oreset"])
+                    and res["runseq"] != outs):
+                # the sequence's own block size and reset agree with the adapter's: its run is the same block loop
+                return (f"{desc}: concatenated request() results {_Short(outs)} (requests at call positions {sched}) "
+                        f"differ from run of the same sequence on the whole flow {_Short(res['runseq'])}")
+    dec = outs if post == 0 else [r[:-1] for r in outs if r[-1] == 99]
+    return _accounted(case, dec, innerflow, True, trace[-1][1] + trace[-1][2])
 
 
 def _oracle_opsx(case, res):
@@ -1504,6 +1762,74 @@ def _sibx_cases(rng, count):
         yield c
 
 
+_SEQ_KINDS = ("fr", "fc", "both")
+
+
+def _outer(rng, n, reset=None):
+    """the FillRequestSeq's own options (not read by its fill/request): block size equal to the adapter's half of the
+    time, reset, buffer mode"""
+    return {"ob": rng.choice((n, n, n, 1, 2, 3, 5)), "oreset": rng.random() < 0.5 if reset is None else reset,
+            "obuf": rng.choice(("bi", "bo")), "oyor": rng.random() < 0.1}
+
+
+def _seq_cases(rng, thorough):
+    """FillRequestSeq objects driven through their own fill()/request(): every request schedule of flows 0..5 (thorough:
+    0..7) x wrapped kind x adapter bufsize 1..3 (1..4) x buffer mode x reset x yield_on_remainder x elements before /
+    after (none, functions, Run elements yielding 0..2 values per value); the sequence's own options drawn per case
+    (thorough: both values of its reset for every case)"""
+    for L in range(0, 8 if thorough else 6):
+        for kind in _SEQ_KINDS:
+            for reset in (True, False):
+                for n in range(1, 5 if thorough else 4):
+                    for buf in ("bi", "bo"):
+                        for yor in (False, True):
+                            for pre, post in ((0, 0), (1, 1), (2, 0), (0, 2)):
+                                if not thorough and yor and (pre, post) != (0, 0):
+                                    continue
+                                for mask in range(1 << L):
+                                    for oreset in ((True, False) if thorough else (None,)):
+                                        c = _base(kind, 1, False, True, n, buf, reset, yor)
+                                        c.update(op="seqops", inner="fr", pre=pre, post=post, n=L, mask=mask)
+                                        c.update(_outer(rng, n, oreset))
+                                        yield c
+
+
+def _seq_random_cases(rng, count):
+    """the other dimensions of a FillRequestSeq under fill/request, combined at random: longer flows, adapter bufsize
+    1..5, 2 results / state-changing request / state-dependent result count, method-name keywords, wrapped
+    fill/request+compute elements, a raw fill/request element in place of the adapter, re-use of the object (a second
+    history, run before / after the history), no / both buffer flags (legal only with yield_on_remainder)"""
+    for _ in range(count):
+        kind = rng.choice(_SEQ_KINDS + ("frc",))
+        k = rng.choice((1, 1, 2))
+        mut = rng.random() < 0.2
+        hr, reset = rng.choice(((True, True), (True, False), (False, False)))
+        yor = rng.random() < 0.3
+        n = rng.randint(1, 5)
+        c = _base(kind, k, mut, hr, n, rng.choice(_bufs(yor)), reset, yor)
+        L = rng.randint(0, 12)
+        c.update(op="seqops", inner="raw" if rng.random() < 0.12 else "fr", pre=rng.choice((0, 0, 1, 2)),
+                 post=rng.choice((0, 0, 1, 2)), n=L, mask=_random_mask(rng, L, rng.choice((0.1, 0.3, 0.6, 1.0))))
+        # (the sequence's reset=True needs a wrapped element with a reset method: FillRequestSeq.reset() calls
+        # FillRequest.reset, which is None otherwise — TypeError from run(); asked-for reset of an element that has none)
+        c.update(_outer(rng, n, None if hr or c["inner"] == "raw" else False))
+        if rng.random() < 0.08:
+            c["obuf"] = rng.choice(("none", "both"))
+        if not mut and rng.random() < 0.25:
+            c["kpar"] = True
+        if c["inner"] == "fr" and rng.random() < 0.2:
+            c["names"] = True
+        u = rng.random()
+        if u < 0.3:
+            n2 = rng.randint(0, 7)
+            c.update(n2=n2, mask2=_random_mask(rng, n2, 0.4))
+        elif u < 0.45:
+            c["n0"] = rng.randint(0, 7)
+        if rng.random() < 0.15:
+            c["n3"] = rng.randint(0, 7)
+        yield c
+
+
 def _dimension_cases(rng, count):
     """the dimensions the enumerations below keep fixed, combined at random: flow values (None, equal values, pairs,
     strings, floats), number of results depending on the state, method names given by keyword, a float bufsize and
@@ -1629,6 +1955,11 @@ def gen_cases(ctx):
                             c.update(op="split", form="el", m=m, n=L)
                             yield c
     for c in _dimension_cases(rng, 40000 if thorough else 9000):
+        yield c
+    # --- FillRequestSeq objects driven through their own fill()/request() --------------------------
+    for c in _seq_random_cases(rng, 20000 if thorough else 4000):
+        yield c
+    for c in _seq_cases(rng, thorough):
         yield c
     # --- a Run element that does not read its whole block ------------------------------------------
     for j in (0, 1, 2, 3, None):
@@ -1818,8 +2149,8 @@ def nontrivial(case, res):
         return True
     if case["op"] == "init":
         return False
-    if case["op"] in ("ops", "opsx"):
-        return any(t[0] for t in res["t"]) or any(t[1] is True for t in res["t"])
+    if case["op"] in ("ops", "opsx", "seqops"):
+        return any(t[0] for t in res.get("t", [])) or any(t[1] is True for t in res.get("t", []))
     return bool(res.get("r")) or bool(res.get("raised"))
 
 
@@ -1842,6 +2173,14 @@ def classify(case, res):
                                                       else "from-fill"))
         elif res.get("raised"):
             labels.append(f"{op}:LenaStopFill-escaped")
+    if op == "seqops":
+        labels.append(f"seqops:inner={case.get('inner', 'fr')}:pre={_code(case.get('pre'))}:post={_code(case.get('post'))}")
+        labels.append(f"seqops:outer:reset={case['oreset']}:{case['obuf']}:yor={case['oyor']}:"
+                      + ("bufsize=inner" if case["ob"] == case["bufsize"] else "bufsize!=inner"))
+        labels.append("seqops:passes=" + "+".join(p for p, key in (("run", "n0"), ("ops", "n"), ("ops", "n2"), ("run", "n3"))
+                                                  if case.get(key) is not None))
+        misaligned = any((case["mask"] >> j) & 1 and j % case["bufsize"] for j in range(case["n"]))
+        labels.append("seqops:" + ("misaligned" if misaligned else "aligned"))
     if op == "run" and case["kind"] == "frseq":
         labels.append(f"run:frseq:pre={_code(case.get('pre'))}:post={_code(case.get('post'))}")
     if op == "ops":
@@ -1872,6 +2211,8 @@ def signature(case, failure):
         # (the finding fixed by dbe92ef, notes/C16_defect_1): a Run element that reads only part of its block
         return "runp:run-element-reads-part-of-its-block"
     extra = ""
+    if case["op"] == "seqops":
+        extra = f",inner={case.get('inner', 'fr')},outer-reset={case['oreset']},outer-yor={case['oyor']}"
     if case["op"] in ("opsx", "splitx", "runx"):
         extra = f",stop={case.get('stop') is not None},ev={case.get('ev', 'call')}"
     return f"{case['op']}:kind={case['kind']},buf={case.get('buf')},reset={case['reset']},yor={case['yor']}{extra}"
@@ -1910,18 +2251,44 @@ def shrink(case):
             yield dict(case, nest=False)
         if not case.get("cb", True):
             yield dict(case, cb=True)
+    if op == "seqops":
+        for key in ("n0", "n3"):
+            if case.get(key) is not None:
+                yield {k: v for k, v in case.items() if k != key}
+                if case[key] > 0:
+                    yield dict(case, **{key: case[key] - 1})
+        if case.get("n2") is not None:
+            yield {k: v for k, v in case.items() if k not in ("n2", "mask2")}
+            if case["n2"] > 0:
+                yield dict(case, n2=case["n2"] - 1, mask2=case.get("mask2", 0) & ((1 << (case["n2"] - 1)) - 1))
+            for j in range(case["n2"]):
+                if (case.get("mask2", 0) >> j) & 1:
+                    yield dict(case, mask2=case["mask2"] & ~(1 << j))
+        for key in ("pre", "post"):
+            if case.get(key):
+                yield dict(case, **{key: 0})
+        if case.get("kpar"):
+            yield dict(case, kpar=False)
+        if case.get("names"):
+            yield dict(case, names=False)
+        if case["ob"] != case["bufsize"]:
+            yield dict(case, ob=case["bufsize"])
+        if case["obuf"] != "bi" and not (case["obuf"] in ("none", "both") and not case["oyor"]):
+            yield dict(case, obuf="bi")
+        if case["oyor"] and case["obuf"] in ("bi", "bo"):
+            yield dict(case, oyor=False)
     if case["n"] > 16:
         for nn in (case["n"] // 2, case["n"] - case["n"] // 8):
             c = dict(case, n=nn)
-            if op == "ops":
+            if op in ("ops", "seqops"):
                 c["mask"] = case["mask"] & ((1 << nn) - 1)
             yield c
     if case["n"] > 0:
         c = dict(case, n=case["n"] - 1)
-        if op == "ops":
+        if op in ("ops", "seqops"):
             c["mask"] = case["mask"] & ((1 << c["n"]) - 1)
         yield c
-    if op == "ops":
+    if op in ("ops", "seqops"):
         for j in range(case["n"]):
             if (case["mask"] >> j) & 1:
                 yield dict(case, mask=case["mask"] & ~(1 << j))
@@ -1953,7 +2320,10 @@ LEVEL_TEXT = ("Lean 4 theorems about a hand-transcribed model of FillRequest (__
               "clause is false: proved negation). NOT PROVED: 'every call returns in finite time' (only: the transcribed "
               "loops are total given terminating element methods; the real code is watched by a step budget and a wall clock "
               "on the generated cases). Also modelled and proved: elements that raise LenaStopFill, FillRequest.reset() inside "
-              "a history. The model is tied to /repo by a correspondence check on generated cases (every subset of request "
+              "a history; a FillRequestSeq driven through its own fill()/request() (any elements before/after, ANY values of "
+              "its own bufsize/reset/flags): its requests yield what the contained adapter yields for the pre-processed "
+              "fills, hence schedule independence, accounting and the buffer bound carry over (and a request() that resets, "
+              "as the source's 'todo' suggests, is proved to lose values). The model is tied to /repo by a correspondence check on generated cases (every subset of request "
               "points for flows up to 8 in thorough / 6 in quick, all flags, bufsize 1..5, Split block sizes, plus random "
               "combinations of flow values, state-dependent result counts, method-name keywords, non-int arguments, sibling "
               "branches of every type around the branch (also stopping ones, also an inner Split), re-use of adapter and Split "
@@ -1962,7 +2332,7 @@ LEVEL_TEXT = ("Lean 4 theorems about a hand-transcribed model of FillRequest (__
 LEVEL_NOTE = ("Trusted: Lean kernel (+ propext, Classical.choice, Quot.sound); the hand transcription, validated only on the "
               "generated cases; iterator and generator semantics as transcribed; the JSON protocol. Not verified: real "
               "termination (watchdogs only); results with reference semantics (assumed away, notes/C16_judgement_1); "
-              "Split.run itself (C03). 27 property theorems + 19 supporting ones (AUX_THEOREMS: constructor contract, glue "
+              "Split.run itself (C03). 32 property theorems + 21 supporting ones (AUX_THEOREMS: constructor contract, glue "
               "between model functions, closed witnesses, the generator-keeping adapter variant).")
 TECHNIQUE = "Lean 4 proof over hand-written model + exhaustive-in-scope correspondence check"
 DESIGN_REF = "DESIGN.md section 3, C16"
